@@ -232,4 +232,191 @@ inductive RefRun : List Call → Nat → Nat → Prop
   | nil (n : Nat) : RefRun [] n n
   | cons (c : Call) (r : List Call) (n m k : Nat) : c.ref.rel c.arg n m → RefRun r m k → RefRun (c :: r) n k
 
+/-! ### size of a freshly constructed container
+
+`ctorSize` copies lib/valueflow.cpp `getContainerSizeFromConstructor` / `getInitListSize` / `getContainerSizeFromConstructorArgs`
+branch by branch, on an abstraction of the constructor arguments that keeps exactly what those functions test (the type class of the
+argument: integral / generic char / pointer / iterator / container, Known int value, Known container size, string-literal length)
+together with what the arguments *are* at run time, so that the same call can be given its ISO C++17 meaning by `ctorRef`
+([string.cons], [sequence.reqmts], [associative.reqmts], [unord.req], and [over.match.list]: for `{…}` an initializer_list constructor
+is preferred whenever the list elements convert to the element type without narrowing).  A Known value of an *argument* is taken to
+be right (that is C01 / the size facts of the source container); the question here is only what the constructor makes of it. -/
+
+/-- the container being constructed (element type `int` / `char`; maps are not modelled) -/
+inductive CKind
+  | string          -- std::string, std::wstring (`stdStringLike`)
+  | seq             -- std::vector<int>, std::deque<int>, std::list<int>
+  | set             -- std::set<int>
+  | uset            -- std::unordered_set<int>
+  | multiset        -- std::multiset<int>
+  deriving DecidableEq, Repr, Inhabited
+
+/-- one constructor argument -/
+inductive Arg
+  | num (isChar : Bool) (v : Nat) (known : Bool)
+      -- integral expression with run-time value v; `isChar`: of type char / wchar_t (astIsGenericChar); `known`: a literal /
+      -- constant expression, cppcheck has the Known value v
+  | lit (len : Nat)                 -- string literal with `len` characters
+  | cptr (len : Nat)                -- `const char *p` pointing at a NUL-terminated string of `len` characters (no Known length)
+  | cptrPlus (len k : Nat) (known : Bool)      -- `p + k` for the same `p`; `known`: k is a literal
+  | arrB (n : Nat)                  -- `arr` for `int arr[n]` (pointer to the first element)
+  | arrE (n k : Nat)                -- `arr + k` for the same array, k ≤ n a literal
+  | itBegin (size distinct : Nat) (known : Bool)
+      -- `src.begin()` of a container with `size` elements, `distinct` of them pairwise different; `known`: Known size fact on it
+  | itEnd                           -- `src.end()` of the same container
+  | cont (size distinct : Nat) (known : Bool)    -- a container of the same type
+  deriving DecidableEq, Repr, Inhabited
+
+def Arg.isIntegral : Arg → Bool | .num _ _ _ => true | _ => false                  -- astIsIntegral(tok, false)
+def Arg.isGenericChar : Arg → Bool | .num c _ _ => c | _ => false                    -- astIsGenericChar
+def Arg.isPointer : Arg → Bool | .lit _ | .cptr _ | .cptrPlus _ _ _ | .arrB _ | .arrE _ _ => true | _ => false   -- astIsPointer
+def Arg.isIterator : Arg → Bool | .itBegin _ _ _ | .itEnd => true | _ => false      -- astIsIterator
+def Arg.isContainer : Arg → Bool | .cont _ _ _ => true | _ => false                 -- astIsContainer
+
+/-- `makeContainerSizeValue(tok, known)`: the Known int value of the argument, if it has one -/
+def Arg.knownInt : Arg → Option Nat
+  | .num _ v known => if known then some v else none
+  | _ => none
+
+/-- `getContainerValues(tok)`: the container-size values on the argument token (here: a Known one or nothing) -/
+def Arg.contValues : Arg → Option Nat
+  | .cont s _ known => if known then some s else none
+  | .itBegin s _ known => if known then some s else none
+  | _ => none
+
+/-- astutils.cpp `isIteratorPair`: two pointers, or two iterators of the same container -/
+def isIteratorPair : List Arg → Bool
+  | [a, b] => (a.isPointer && b.isPointer) || (a.isIterator && b.isIterator)
+  | _ => false
+
+/-- valueflow.cpp `getContainerSizeFromConstructorArgs(args, container, known)` (args non-empty) -/
+def ctorArgsSize (stringLike : Bool) (args : List Arg) : Option Nat :=
+  match args with
+  | [] => none
+  | a0 :: rest =>
+    if a0.isIntegral then                                    -- `{ count, i } or { count }`
+      (if rest.isEmpty || !(rest.head?.map Arg.isIntegral).getD false then a0.knownInt else none)
+    else if a0.isContainer && rest.isEmpty then a0.contValues  -- copy constructor
+    else if isIteratorPair args then
+      match a0.contValues with
+      | some s => some s
+      | none =>
+        if a0.isPointer then                                 -- (ptr, ptr + size)
+          match a0, rest with
+          | .cptr _, [.cptrPlus _ k known] => if known then some k else none
+          | .arrB _, [.arrE _ k] => some k
+          | _, _ => none
+        else none
+    else if stringLike then
+      if a0.isPointer then
+        match a0, rest with
+        | .lit len, [] => some len                           -- one string literal
+        | _, [a1] => if a1.isIntegral then a1.knownInt else none   -- { char*, count }
+        | _, _ => none
+      else if a0.isContainer then
+        match rest with
+        | [_, a2] => a2.knownInt                             -- { str, pos, count }
+        | _ => none
+      else none
+    else none
+
+/-- valueflow.cpp `getInitListSize(tok, valueType, settings, known)`; `braces`: `tok->str() == "{"`.  For the kinds modelled here the
+    element type is integral, and a single container argument has the same container type (copy). -/
+def initListSize (k : CKind) (braces : Bool) (args : List Arg) : Option Nat :=
+  match args with
+  | [] => some 0
+  | a0 :: _ =>
+    let initList : Bool :=
+      if braces && args.length < 4 then
+        if k == .string then a0.isGenericChar && !a0.isPointer
+        else if a0.isIntegral then true                      -- `vt.isIntegral() && astIsIntegral(args[0], false)`
+        else if args.length == 1 && a0.isContainer then false   -- copy ctor (valueFlowIsSameContainerType)
+        else !isIteratorPair args
+      else braces
+    if !initList then ctorArgsSize (k == .string) args else some args.length
+
+/-- the Known size valueFlowContainerSize gives `T x(args)` / `T x{args}` (`none` = no size fact) -/
+def ctorSize (k : CKind) (braces : Bool) (args : List Arg) : Option Nat :=
+  match args with
+  | [] => some 0
+  | _ => if braces then initListSize k true args else ctorArgsSize (k == .string) args
+
+/-! #### reference: what the constructor call means -/
+
+/-- the pairwise different values of a list (the last occurrence of each is kept) -/
+def dedup : List Nat → List Nat
+  | [] => []
+  | x :: r => if r.contains x then dedup r else x :: dedup r
+
+def numValues : List Arg → Option (List Nat)
+  | [] => some []
+  | .num _ v _ :: r => (numValues r).map (v :: ·)
+  | _ :: _ => none
+
+/-- every element of a braced list converts to the element type without narrowing: for a `char` element type a non-char operand
+    must be a constant (whose value fits); for `int` every integral operand does -/
+def listConverts (k : CKind) : List Arg → Bool
+  | [] => true
+  | .num c _ known :: r => (k != .string || c || known) && listConverts k r
+  | _ :: _ => false
+
+def allNum : List Arg → Bool
+  | [] => true
+  | .num _ _ _ :: r => allNum r
+  | _ :: _ => false
+
+/-- the non-list constructors; `none` = no such constructor / precondition violated (ill-formed, throws or undefined) -/
+def ctorRefPlain (k : CKind) (args : List Arg) : Option Nat :=
+  match k, args with
+  | _, [] => some 0
+  | _, [.cont s _ _] => some s                                                     -- copy
+  | .string, [.num _ n _, .num _ _ _] => some n                                    -- (count, ch)
+  | .string, [.lit len] => some len
+  | .string, [.cptr len] => some len
+  | .string, [.lit len, .num _ n _] => if n ≤ len then some n else none           -- (const char*, n): [s, s+n) must be valid
+  | .string, [.cptr len, .num _ n _] => if n ≤ len then some n else none
+  | .string, [.cptr len, .cptrPlus _ j _] => if j ≤ len then some j else none      -- (first, last)
+  | .string, [.itBegin s _ _, .itEnd] => some s
+  | .string, [.cont s _ _, .num _ pos _] => if pos ≤ s then some (s - pos) else none          -- (str, pos): throws if pos > size
+  | .string, [.cont s _ _, .num _ pos _, .num _ n _] => if pos ≤ s then some (min n (s - pos)) else none
+  | .seq, [.num _ n _] => some n
+  | .seq, [.num _ n _, .num _ _ _] => some n
+  | .multiset, [.itBegin s _ _, .itEnd] => some s
+  | .seq, [.itBegin s _ _, .itEnd] => some s
+  | .seq, [.arrB n, .arrE _ j] => if j ≤ n then some j else none
+  | .multiset, [.arrB n, .arrE _ j] => if j ≤ n then some j else none
+  | .set, [.itBegin _ d _, .itEnd] => some d                                       -- unique keys: the distinct elements
+  | .uset, [.itBegin _ d _, .itEnd] => some d
+  | .uset, [.num _ _ _] => some 0                                                  -- (bucket_count): an empty container
+  | _, _ => none
+
+/-- `T x(args)` / `T x{args}` according to [over.match.list] -/
+def ctorRef (k : CKind) (braces : Bool) (args : List Arg) : Option Nat :=
+  if braces && !args.isEmpty && allNum args then
+    -- the initializer_list constructor is viable: it is chosen; narrowing then makes the program ill-formed
+    if listConverts k args then
+      match numValues args with
+      | some vs => some (if k == .set || k == .uset then (dedup vs).length else vs.length)
+      | none => none
+    else none
+  else ctorRefPlain k args
+
+/-- the call forms where the code as it is gives a Known size that the reference does not have -/
+def ctorExcluded (k : CKind) (braces : Bool) (args : List Arg) : Bool :=
+  (match k, args with
+  | .string, [.cont s _ _, .num _ pos _, .num _ n known] => known && decide (pos + n > s)   -- F02c: count beyond the end
+  | .uset, [.num _ _ known] => known && !braces                                            -- F02g: bucket count
+  | .string, [.num isChar _ known] => known && !isChar && braces                           -- F02h: `std::string s{65}`
+  | .set, [.itBegin s d known, .itEnd] => known && decide (d < s)                           -- F02f: duplicates in the range
+  | .uset, [.itBegin s d known, .itEnd] => known && decide (d < s)
+  | _, _ => false) ||
+  ((k == .set || k == .uset) && braces && allNum args &&                                     -- F02b: duplicates in the list
+    (match numValues args with | some vs => decide ((dedup vs).length < vs.length) | none => false))
+
+/-- consistency of the run-time data an argument carries -/
+def Arg.wf : Arg → Bool
+  | .itBegin s d _ => decide (d ≤ s)
+  | .cont s d _ => decide (d ≤ s)
+  | _ => true
+
 end Cppcheck.ContainerSize
